@@ -368,7 +368,10 @@ fn spec_for_inner(prop: &str, thorough: bool, rng: &mut Rng) -> RunSpec {
             cfg.callback_cap = 5_000_000;
             let n = *rng.pick(&[1usize, 2, 3, 6, 7, 13, 14, 27, 28, 29, 50, 56, 100, 200]);
             cfg.sweep_below = if n <= 30 { 48 } else { 0 };
-            let mut g = gen(Family::Map, 64, vec![(Kd::Insert, 1)]);
+            // a quarter of the histories churn a HashTable (insert_unique / find_entry().remove() / find / iter_hash)
+            let table = rng.below(4) == 0;
+            let world = if table { "T24".to_string() } else { world };
+            let mut g = gen(if table { Family::Table } else { Family::Map }, 64, vec![(Kd::Insert, 1)]);
             g.macro_den = 0;
             g.churn = Some((n, rng.below(4) as u8));
             let n_ops = if thorough { *rng.pick(&[5000usize, 5000, 20000, 100000]) } else { *rng.pick(&[2000usize, 5000, 5000]) };
@@ -468,7 +471,7 @@ pub fn owns(prop: &str, v: &Violation) -> bool {
     // memory-safety monitors: structure invariants, ledger (double drop, dead reference), canaries, crashes
     let safety = starts(c, "inv/") || starts(c, "ledger/invalid-ref") || starts(c, "ledger/double-drop") || starts(c, "ledger/drop-unknown") || starts(c, "ledger/corrupt") || starts(c, "alloc/canary") || starts(c, "alloc/use-after-free") || starts(c, "alloc/bad-free") || starts(c, "alloc/double-free") || starts(c, "alloc/invalid-layout") || starts(c, "alloc/layout-mismatch") || starts(c, "crash/") || starts(c, "hang/");
     // functional disagreement with the reference model, attributed by the kind of the failing operation
-    let functional = starts(c, "ret/") || starts(c, "contents/") || starts(c, "len/") || starts(c, "sweep/") || starts(c, "panic/");
+    let functional = starts(c, "ret/") || starts(c, "contents/") || starts(c, "len/") || starts(c, "sweep/") || starts(c, "panic/") || starts(c, "hang/probe-");
     match prop {
         // the structural invariants are the state form of the functional statement: the property quantifies over
         // every hasher, and for a control byte that disagrees with its mirror (or a count that disagrees with
